@@ -31,7 +31,8 @@ def check(prop, tier, seed):
     if res.violated:
         raise Infra("Conn.tla violates %s: specification bug" % res.violated)
     run.log("design: %d states" % res.distinct)
-    shapes = (SHAPES2[:4] + SHAPES1[:2]) if quick else (SHAPES2 + SHAPES1)
+    # the in-memory L1 has no backend connection: nothing else in the process touches the responders' pooled objects
+    shapes = ((SHAPES2[:4] + SHAPES1[:2]) if quick else (SHAPES2 + SHAPES1)) + [dict(orca="l1only", lock="none", l1="inmem")]
     n = 250 if quick else 3000
     files = []
     for sh in shapes:
